@@ -73,7 +73,7 @@ def call_once(method, cfg, pil, case):
 
 class P(Prop):
     id = "C07"
-    quick_cases = 60
+    quick_cases = 100
     thorough_cases = 1500
     chunk = 10
     rule = (
@@ -88,9 +88,29 @@ class P(Prop):
 
     def gen_case(self, rng, tier):
         ms = method_names()
-        m = rng.choice(ms)
+        # methods whose strategy objects carry per-run state get most of the weight: multPEP (optimised divisor),
+        # razor (peptide counts, best scores), rescued grouping (score cutoff, placeholder groups), picked (seen-set)
+        fields = {m: pipeline.method_fields(m) for m in ms}
+        stateful = [m for m in ms if "multPEP" in fields[m]["scoreType"] or fields[m].get("sharedPeptides") == "razor"
+                    or fields[m]["grouping"].startswith("rescued")]
+        m = rng.choice(stateful) if (stateful and rng.random() < 0.7) else rng.choice(ms)
         n = rng.randint(2, 5)
         base = [gen_pil.gen_pil(rng, tier) if rng.random() < 0.7 else gen_pil.gen_rescue_pil(rng, tier)[0] for _ in range(rng.randint(1, n))]
+        # variants that differ in kind from their source: targets only, decoys only, a single peptide, the strongest half
+        for b in list(base):
+            r = rng.random()
+            if r < 0.35:
+                v = [e for e in b if not any(q.startswith(("REV__", "rev_")) for q in e[2])]
+            elif r < 0.45:
+                v = [e for e in b if any(q.startswith(("REV__", "rev_")) for q in e[2])]
+            elif r < 0.55:
+                v = b[:1]
+            elif r < 0.65:
+                v = sorted(b, key=lambda e: e[1])[: max(1, len(b) // 2)]
+            else:
+                continue
+            if v:
+                base.append(v)
         inputs = [rng.choice(base) for _ in range(n)]
         return {"method": m, "inputs": inputs, "thr": rng.choice(pipeline.THRESHOLDS), "psm": 0.01,
                 "keep": rng.random() < 0.3}
